@@ -53,6 +53,10 @@ class FakeStdTime:
     def sleep(self, secs: float) -> None: self.now += F(secs)
 
 
+class CallbackBoom(Exception):
+    """Raised by a harness callback the case tells to fail."""
+
+
 class SysClock:
     """The real global `TimeController` re-initialised on a FakeStdTime, with `pamiq_core.time.time`
     wrapped so that every reading the code under test makes is recorded."""
@@ -134,13 +138,28 @@ def run_case(case: dict, driver, variant: str = "1"):
     log: list[tuple[int, F]] = []
     fns: dict[int, object] = {}
 
+    raise_at = {int(k): set(v) for k, v in case.get("raise_at", {}).items()}
+    calls: dict[int, int] = {}
+
     def cb(i: int):
         if i not in fns:
             def f() -> None:
                 log.append((i, clk.peek()))
                 clk.fake.now += cb_adv          # a callback takes (real) time
+                calls[i] = calls.get(i, 0) + 1
+                if calls[i] in raise_at.get(i, ()):
+                    raise CallbackBoom(f"callback {i}, invocation {calls[i]}")
             fns[i] = f
         return fns[i]
+
+    def next_failing_position() -> int | None:
+        """Position (in registration order) of the callback that will raise if the loop runs now."""
+        extra: dict[int, int] = {}
+        for j, c in enumerate(registered):
+            extra[c] = extra.get(c, 0) + 1
+            if calls.get(c, 0) + extra[c] in raise_at.get(c, ()):
+                return j
+        return None
 
     registered = list(case.get("cbs", []))      # monitor's own record of the registrations
     # ---- construction ----
@@ -189,6 +208,12 @@ def run_case(case: dict, driver, variant: str = "1"):
                 getattr(clk.ctl, name)()
                 trace.append((name, ""))
                 continue
+            if name == "rewind":
+                # an older clock state is loaded: system time steps back by op[2]
+                d = clk.ctl.state_dict()
+                clk.ctl.load_state_dict({k: v - float(F(op[2])) for k, v in d.items()})
+                trace.append((name, op[2]))
+                continue
             if name == "probe":
                 if kind != "time":
                     continue
@@ -227,14 +252,46 @@ def run_case(case: dict, driver, variant: str = "1"):
             del log[:]
             clk.begin(script)
             ret = None
+            raised = False
+            fail_pos = next_failing_position() if kind == "time" and raise_at else None
             if kind == "time":
-                obj.update()
+                try:
+                    obj.update()
+                except CallbackBoom:
+                    raised = True
             else:
                 ret = bool(obj())
             rd = clk.end()
             x = clk.peek()
             ran = [j for j, _ in log]
-            if kind == "time":
+            if kind == "time" and raise_at:
+                lines.append(f"sched update_f {'none' if fail_pos is None else fail_pos} {rshow(rd)}")
+                impl.append(f"ran={show_list(ran)} raised={'1' if raised else '0'} reads={len(rd)}")
+                if raised:
+                    # the callbacks up to the raising one ran once each in order, the later ones did not,
+                    # and the interval was not restarted: it is still due at the (frozen) exit instant
+                    if ran != registered[:fail_pos + 1]:
+                        violate("sched:callback-order", f"op#{i}: callbacks invoked {ran}, registered "
+                                f"{registered}, the one at position {fail_pos} raised")
+                    clk.begin([])
+                    still = bool(obj.is_available())
+                    rd2 = clk.end()
+                    lines.append(f"sched is_available {rshow(rd2)}")
+                    impl.append("1" if still else "0")
+                    if not still and registered[fail_pos + 1:]:
+                        violate("sched:restarted-after-raise",
+                                f"op#{i}: callback at position {fail_pos} raised, callbacks "
+                                f"{registered[fail_pos + 1:]} never ran, yet the interval was restarted "
+                                f"(is_available() is False right after)")
+                    trace.append((name, "raised", len(rd)))
+                    continue
+                fired = bool(ran)
+                t_fire = log[0][1] if log else x
+                observable = bool(registered)
+                if ran and ran != registered:
+                    violate("sched:callback-order", f"op#{i}: callbacks invoked {ran}, registered "
+                            f"{registered}")
+            elif kind == "time":
                 lines.append(f"sched update {rshow(rd)}")
                 impl.append(f"ran={show_list(ran)} reads={len(rd)}")
                 fired = bool(ran)
@@ -401,9 +458,17 @@ def gen_time_case(rng, kind: str) -> dict:
             case["ops"].append(["register", gap, rng.randrange(1, 4)])
         elif r < 0.88 and kind == "time":
             case["ops"].append(["remove", gap, rng.randrange(1, 4)])
+        elif r < 0.93:
+            case["ops"].append(["rewind", gap, rng.choice(["1/2", "1", "2", "5"])])
         else:
             case["ops"].append(["resume" if paused else "pause", gap])
             paused = not paused
+    if kind == "time" and case["cbs"] and rng.random() < 0.3:
+        # some callbacks raise at some of their invocations; the caller catches and goes on
+        case["raise_at"] = {str(c): sorted(rng.sample(range(1, 5), rng.randint(1, 2)))
+                            for c in set(case["cbs"]) if rng.random() < 0.7}
+        if not case["raise_at"]:
+            del case["raise_at"]
     return case
 
 
